@@ -53,6 +53,8 @@ type ModelDriver struct {
 	// ReportFor builds the usage report(s) a remove/query/update of a URR returns.
 	ReportFor func(op string, seid uint64, urrid uint32) []report.USAReport
 	volume    uint64
+	// UpdateReports makes UpdateURR return a usage report, as gtp5g does when it restarts the measurement.
+	UpdateReports bool
 }
 
 func NewModelDriver() *ModelDriver {
@@ -229,8 +231,12 @@ func (d *ModelDriver) RemoveBAR(s uint64, i *ie.IE) error { return d.do("remove"
 func (d *ModelDriver) CreateURR(s uint64, i *ie.IE) error { return d.do("create", "URR", s, urrID(i), i) }
 
 func (d *ModelDriver) UpdateURR(s uint64, i *ie.IE) ([]report.USAReport, error) {
-	if err := d.do("update", "URR", s, urrID(i), i); err != nil {
+	id := urrID(i)
+	if err := d.do("update", "URR", s, id, i); err != nil {
 		return nil, err
+	}
+	if d.UpdateReports {
+		return d.reports("update", s, id), nil
 	}
 	return nil, nil
 }
